@@ -339,6 +339,9 @@ def packet_lists(thorough):
         yield [(6, None)] * n
     # a binary packet between two others, for every leading byte (its base64 text starts with every character of the alphabet,
     # the channel marker included)
+    # large attachments around and beyond the sizes at which an encoder might work in blocks
+    for n in (3071, 3072, 4095, 4096, 4097, 4098, 6000, 8192, 8193, 12289, 65537):
+        yield [(4, 'head'), (4, bytes((i * 7 + n) % 256 for i in range(n))), (4, 'tail')]
     for a in range(256):
         yield [(4, 'before'), (4, bytes([a, 1, 2])), (2, None)]
         yield [(4, bytes([a]))]
